@@ -153,7 +153,7 @@ pub(crate) fn header_of(verified_at: usize, revisions: QueryRevisions) -> MemoHe
 // C23-O4: a replaced memo stays alive until the next exclusive borrow
 // ---------------------------------------------------------------------------------------------
 
-// @verif prop=C23,C05 obl=O4 tier=thorough cbmc_ub=violation bounds="one memo of VFn attached to a page-backed struct, replaced once; the old memo symbolic: value present or evicted, final or provisional, origin Derived/DerivedUntracked/Assigned, symbolic stamps"
+// @verif prop=NONE obl=O4 tier=thorough cbmc_ub=violation bounds="PROBE (exceeds 40 GB): one memo of VFn attached to a page-backed struct, replaced once; the old memo symbolic: value present or evicted, final or provisional, origin Derived/DerivedUntracked/Assigned, symbolic stamps"
 // @+ encodes="function::IngredientImpl::<VFn>::insert_memo, IngredientImpl::insert_memo_into_table_for, MemoTableWithTypes::insert, DeletedEntries::push, IngredientImpl::get_memo_from_table_for, IngredientImpl::reset_for_new_revision, DeletedEntries::clear, SharedBox::drop"
 /// C23-O4: when a result is replaced while the database is only shared-borrowed, the old memo (to which `fetch` may have
 /// handed out references, and which `execute` itself still reads for backdating and output diffing) is parked, not freed:
